@@ -78,6 +78,7 @@ def units(tier):
         for a in LEAF_KINDS[::2]:
             for b in LEAF_KINDS[1::3]:
                 add(f"and2_{a}_{b}", ["and", [[a], [b]]], vlen=2, alen=1)
+    us.append({"name": "long_tree_1500", "shape": {"kind": "long", "n": 1500, "spec": ["or"], "vlen": 1, "alen": 1}})
     return us
 
 
@@ -214,6 +215,10 @@ def _grow(F, f):
 
 
 def body(ctx, shape):
+    if shape.get("kind") == "long":
+        from checks import c14
+
+        return c14._long(ctx, shape)
     F = ctx.L.filter
     g = G(ctx, shape)
     f = build(g, F, shape["spec"])
